@@ -425,7 +425,11 @@ class Campaign:
         if not w.writer_of:
             self.tc.observe(w, output, fresh, desc)
         stale_real = w.real_stale(fresh)
-        res = w.run(output, fresh, workers=workers, scheduler=scheduler)
+        # every fourth complete run passes transform_physical (the identity, or a copy of the plan): it changes nothing a run does
+        tkind = self.ctx.rng.choice([None, None, None, "identity", "copy"])
+        self.ctx.count("transform_physical_in_history_runs", tkind)
+        transform = None if tkind is None else (lambda pl, out: (pl, out)) if tkind == "identity" else (lambda pl, out: (pl.copy(), out))
+        res = w.run(output, fresh, workers=workers, scheduler=scheduler, transform=transform)
         log = list(w.log)
         after = w.sigma()
         calls = [i for k, i, _ in log if k == "call"]
